@@ -111,16 +111,25 @@ def run_history(h, ctx, farmer=None):
     d = common.fresh_dir('crop')
     failfile = os.path.join(d, 'failcodes.json')
     os.environ[fns.FAIL_ENV] = failfile
+    # the crop's parent directory as the library is told it: absolute, or relative to the working directory
+    cwd0 = os.getcwd()
+    pd = d
+    if h.get('relative'):
+        os.makedirs(os.path.join(d, 'sub'), exist_ok=True)
+        os.chdir(d)
+        pd, d_abs = 'sub', os.path.join(d, 'sub')
+    else:
+        d_abs = d
     if 'ds' in kind:
         f = sweeps.make_rec(sorted_sweep(sw), kind, as_xr=True, dims={n: ['i%d' % d for d in range(len(sh))] for n, sh, _ in kind['ds']})
     else:
         f = sweeps.make_rec(sorted_sweep(sw), kind)
-    loc = os.path.join(d, '.xyz-t')
+    loc = os.path.join(d_abs, '.xyz-t')
     crop, obs = None, []
     sz = sweeps.sizes(sorted_sweep(sw))
     stale0 = None
     if any(op['op'] == 'stalequery' for op in h['ops']):
-        with quiet(): stale0 = xyz.Crop(name='t', parent_dir=d)      # a handle made before anything is sown
+        with quiet(): stale0 = xyz.Crop(name='t', parent_dir=pd)      # a handle made before anything is sown
     try:
         for op in h['ops']:
             k = op['op']
@@ -128,10 +137,14 @@ def run_history(h, ctx, farmer=None):
             try:
                 with quiet():
                     if k == 'new':
-                        crop = xyz.Crop(fn=f, name='t', parent_dir=d, batchsize=op.get('bs'), num_batches=op.get('nb'),
+                        crop = xyz.Crop(fn=f, name='t', parent_dir=pd, batchsize=op.get('bs'), num_batches=op.get('nb'),
                                         shuffle=(op.get('shuffle') or False))
                     elif k == 'reload':
-                        crop = xyz.Crop(name='t', parent_dir=d)
+                        crop = xyz.Crop(name='t', parent_dir=pd)
+                    elif k == 'emptydir':
+                        # the bare directory skeleton without an info file (left by an interrupted first sow, or made by hand)
+                        os.makedirs(os.path.join(loc, 'batches'), exist_ok=True)
+                        os.makedirs(os.path.join(loc, 'results'), exist_ok=True)
                     elif k == 'sow':
                         kw = {}
                         if op.get('bs') is not None: kw['batchsize'] = op['bs']
@@ -186,8 +199,13 @@ def run_history(h, ctx, farmer=None):
                              'ready': bool(h().is_ready_to_reap())}
                         try: o['missing'] = list(h().missing_results())
                         except Exception as e: o['missing'] = {'err': 'fail', 'exc': type(e).__name__}
-                        m = re.search(r'(-?\d+) / (\S+) batches of size', str(cq))
-                        ent_str = [m.group(1), m.group(2)] if m else None
+                        try:
+                            m = re.search(r'(-?\d+) / (\S+) batches of size', str(cq))
+                            ent_str = [m.group(1), m.group(2)] if m else None
+                        except Exception as e:
+                            # str() of a crop whose directory exists without an info file divides by num_batches=None
+                            # (seen while probing, DESIGN §7; the printed summary is not one of the property's queries)
+                            ent_str = None
                     elif k == 'reap':
                         kw = {}
                         if 'clean_up' in op: kw['clean_up'] = op['clean_up']
@@ -207,6 +225,7 @@ def run_history(h, ctx, farmer=None):
         return obs
     finally:
         os.environ.pop(fns.FAIL_ENV, None)
+        os.chdir(cwd0)
         common.rm(d)
 
 
